@@ -316,7 +316,12 @@ func JPEG(t *rapid.T, o Opts) (File, JPEGLayout) {
 	}
 	h, w := uint16(dimN(t, "h", 16, 1)), uint16(dimN(t, "w", 16, 1))
 	f.W, f.H = uint32(w), uint32(h)
-	sof := build.Seg{Marker: sofMarker, Data: build.SOF(8, h, w, comps)}
+	precision := byte(8)
+	if sofMarker == 0xC2 && rapid.IntRange(0, 4).Draw(t, "precision12") == 0 {
+		precision = 12 // legal for SOF2; the standard library's decoder refuses it (counted as decoder_unconfirmed)
+		f.Bits = 12
+	}
+	sof := build.Seg{Marker: sofMarker, Data: build.SOF(precision, h, w, comps)}
 
 	var icc []build.Seg
 	if wantICC(t, o) {
